@@ -54,7 +54,8 @@ def abs_glyph(glyph):
             }
         )
     anchors = [
-        {"n": a.name or "", "x": to_scaled(a.x, PS), "y": to_scaled(a.y, PS)} for a in glyph.anchors
+        {"n": a.name or "", "stem": _stem(a.name or ""), "x": to_scaled(a.x, PS), "y": to_scaled(a.y, PS)}
+        for a in glyph.anchors
     ]
     return {
         "cs": cs,
@@ -64,6 +65,13 @@ def abs_glyph(glyph):
         "h": to_scaled(glyph.height or 0, PS),
         "u": [int(u) for u in glyph.unicodes],
     }
+
+
+def _stem(name):
+    """anchor name without a numbered-ligature suffix (top_2 -> top)"""
+    import re
+
+    return re.sub(r"_\d+$", "", name)
 
 
 def _points(contour):
